@@ -371,7 +371,7 @@ static void body(Ctx& C)
           "unnamed types; each in a forked child on a 256 MiB stack; distinct = distinct (role, kind, outcome) triples");
    C.assume("graphs are finite with nesting depth <= 200, so exhausting a 256 MiB stack means recursion unrelated to the graph; default stream flags (decimal) at entry");
    std::vector<ForkCase> cases;
-   Rng rng(C.seed);
+   Rng rng(C.base_seed * 0x9E3779B97F4A7C15ull + 18);     // the SAME case list in every worker (the run's seed, not the worker's): workers share it by index
    // workers share the work by index
    const int sweeps = C.thorough ? 4 : 1;
    for (int s = 0; s < sweeps; ++s) add_sweep_cases(cases, std::make_shared<SweepWorld>(rng.next()));
